@@ -1177,7 +1177,11 @@ func main() {
 		var jobs []job
 		for _, l := range lines {
 			if f := strings.Fields(l); len(f) >= 3 && f[0] == "SYSF" {
-				for _, r := range sysFaultScenario(common.Atou(f[1]), common.Atoi(f[2]), filepath.Join(o.Out, "sysf")) {
+				fixed := ""
+				if len(f) >= 5 {
+					fixed = f[4]
+				}
+				for _, r := range sysFaultScenario(common.Atou(f[1]), common.Atoi(f[2]), filepath.Join(o.Out, "sysf"), fixed, nil) {
 					out.Case(r.line, r.ans, true)
 					for _, fl := range r.fails {
 						out.Fail(fl[0], fl[1], l)
